@@ -1018,3 +1018,35 @@ func ruleStateInitialised(w *World, r *Report, pfx string) {
 		r.Check(bad == "" && n > 0, rule, "API:Progress.Add nil filler", w.pos(add.Pos()), "nil filler replaced by the no-op filler", orStr(bad, "the closure building the state was not found"))
 	}
 }
+
+// ruleWidthClamp (W-CLAMP, C07): the width a filler draws into never exceeds the width it is
+// offered: CheckRequestedWidth returns the available width, or the requested one only on paths
+// that carry requested <= available.
+func ruleWidthClamp(w *World, r *Report, pfx string) {
+	rule := pfx + ".W-CLAMP"
+	fn := w.Func("internal.CheckRequestedWidth")
+	if fn == nil || len(fn.Params) != 2 {
+		r.Unresolved("anchor", "internal.CheckRequestedWidth", "not found")
+		return
+	}
+	req, avail := ssa.Value(fn.Params[0]), ssa.Value(fn.Params[1])
+	bad := ""
+	n := 0
+	w.enumPaths(fn, pathOpts{InlineDepth: 1, Inline: w.helperInline(fn)}, func(p *Path) {
+		if p.Exit != "return" || len(p.Ret) != 1 {
+			return
+		}
+		n++
+		rv := p.stripR(p.Ret[0]).V
+		switch rv {
+		case avail:
+		case req:
+			if !p.hasCmp(-1, token.LEQ, func(v Val) bool { return v.V == req }, func(v Val) bool { return v.V == avail }) {
+				bad = "the requested width is returned on a path that does not carry requested <= available: a bar asked to be wider than the space left overflows the row"
+			}
+		default:
+			bad = "the width returned is neither the available nor the requested width"
+		}
+	})
+	r.Check(bad == "" && n > 0, rule, "internal.CheckRequestedWidth", w.pos(fn.Pos()), "min(requested, available) for a usable request", orStr(bad, "no returning path"))
+}
